@@ -45,4 +45,15 @@ def sortColsG (p : List Nat) : Nat × Nat → Nat × Nat := fun cr => (p.getD cr
 /-- new row `j` is old row `p[j]`, in every column -/
 def sortRowsG (p : List Nat) : Nat × Nat → Nat × Nat := fun cr => (cr.1, p.getD cr.2 cr.2)
 
+/-- the acceptance condition of every constructor, as a Bool (used by the oracle) -/
+def specShapeOk (c r : Nat) : Bool := decide ((c = 0 ↔ r = 0) ∧ c * r < WORD)
+
+/-- C03: the window `start..end` of a parent; `none` = must panic -/
+def specView (p : VW) (s e : Nat × Nat) : Option VW :=
+  if s.1 ≤ e.1 ∧ s.2 ≤ e.2 ∧ e.1 ≤ p.numCols ∧ e.2 ≤ p.numRows then
+    let sz := viewSize s e
+    if sz.1 = 0 then some ⟨⟨p.data.off, 0⟩, 0, 0, p.stride⟩
+    else some ⟨⟨p.pos s.1 s.2, (sz.2 - 1) * p.stride + sz.1⟩, sz.1, sz.2, p.stride⟩
+  else none
+
 end Toodee
